@@ -325,9 +325,14 @@ def is_covered(vi: np.ndarray, vj: np.ndarray, eps: float, W: np.ndarray) -> boo
     ]
 
     prob = cp.Problem(cp.Minimize(0), constraints)
-    prob.solve()
+    try:
+        prob.solve()
+    except cp.error.SolverError:
+        prob.solve(solver=cp.SCS)
 
-    return x.value is not None
+    # A solver that stops without a decision (e.g. "user_limit") leaves an iterate behind; only a
+    # solved feasibility problem certifies coverage.
+    return prob.status in ("optimal", "optimal_inaccurate")
 
 
 def hyperrectangle_check_intersection(
